@@ -174,13 +174,18 @@ def r04_3(prog, out):
     h = prog.handler("create_subscription")
     if h is None:
         raise CheckBroken("create_subscription handler not found")
-    bi = prog.info(h.root)
     field = ("crate::pubsub_proto::Subscription", "ack_deadline_seconds")
 
     def is_input(o):
         return field in o.cells() and o.cells()[-1] == field
 
-    w = IntervalWalker(prog, h.root, is_input, "i32")
+    # the clamp may sit in a helper of another module (parser::parse_ack_deadline(raw)): follow the field into it
+    def takes_field(ti, bb, t):
+        return any(a.place is not None and is_input(ti.trace(a)) for a in t.args)
+
+    root = prog.inlined_variant(h.root, takes_field)
+    bi = prog.info(root)
+    w = IntervalWalker(prog, root, is_input, "i32")
     info_new = [bb for bb, t in bi.calls(lambda c: c.target == A.ty("SubscriptionInfo") + "::new")]
     if not info_new:
         raise CheckBroken("SubscriptionInfo::new not called in create_subscription")
@@ -195,16 +200,25 @@ def r04_3(prog, out):
                 starts.append(blk.idx)
     key = "clamp:create_subscription"
     if not starts:
-        # no comparison at all: is the value used unclamped?
-        out.violation(key, bi.loc(info_new[0]), "ack_deadline_seconds is not compared with the 10 s minimum")
-        return
+        # no comparison: the minimum may be applied with max() / clamp(); start where the field is first used
+        for blk in bi.body.blocks:
+            if blk.cleanup or blk.idx not in bi.cfg.reach or not bi.cfg.dominates(blk.idx, info_new[0]):
+                continue
+            ops = [op for st in blk.stmts if st.k == "assign" for op in st.rv.ops] + list(blk.term.args)
+            if any(op.place is not None and w._is_in(op) for op in ops):
+                starts.append(blk.idx)
+        if not starts:
+            out.violation(key, bi.loc(info_new[0]), "ack_deadline_seconds does not reach the subscription's ack deadline")
+            return
+        starts = [x for x in starts if all(bi.cfg.dominates(x, y) for y in starts)] or starts[:1]
     start = starts[0]
     only = {x for x in bi.cfg.reach if bi.cfg.can_reach(x, info_new[0])}
     paths = w.paths(start=start, stop=info_new[0], only=only)
     if paths is None:
         out.undecided(key, bi.loc(start), "guard shape has no transfer function (%s)" % w.undecided_reason)
         return
-    items = [(p.lo, p.hi, classify_duration_path(prog, bi, p, is_input)) for p in paths if p.end == info_new[0]]
+    from props.c05 import duration_items
+    items = [it for p in paths if p.end == info_new[0] for it in duration_items(prog, bi, p, is_input)]
     got = merge_partition(items)
     lo, hi = INT_RANGES["i32"]
     expected = [(lo, 10, "Some(from_secs 10)"), (11, hi, "Some(from_secs input)")]
